@@ -288,6 +288,7 @@ def s2_flag_iff_ran(prog):
                     p = op_place(s['rv']['op'])
                     if p and p['l'] == d and p['p']:
                         merged_locals.add(s['place']['l'])
+            merged_locals = derived(body, merged_locals, through_calls=False) if merged_locals else merged_locals
             got = [op_local(o) for o in rest_agg['ops']]
             if not (merged_locals & set(got)):
                 r.viol('S3', key + '/merged-resources-not-forwarded', f.loc(jt['ln']), 'the forked path does not carry the merged resource claims: later add-ons would not see this task\'s resources')
@@ -296,10 +297,9 @@ def s2_flag_iff_ran(prog):
     else:
         qb, qt = qa[0]
         cl = qt['dest']['l']
-        sws = [(b, body.term(b)) for b in range(body.n) if body.term(b)['k'] == 'switch' and op_local(body.term(b)['discr']) == cl]
         ok = False
-        for b, t in sws:
-            if 0 in t['values'] and body.edge_dominates((b, t['otherwise']), jb):
+        for sb_, t_true, t_false in bool_switches(body, cl):
+            if body.edge_dominates((sb_, t_true), jb):
                 ok = True
         if not ok:
             r.viol('S3', key + '/fork-not-guarded-by-archetypes', f.loc(jt['ln']), 'the early start is not guarded by compatible archetype claims')
